@@ -127,39 +127,55 @@ def pair (s : Str) : R (Option (Int × Str)) :=
         else .ok none
     else .ok none
 
-/-- The body of `hex_get_byte` from the label `next_line` (`nl = true`: `s` is not NULL, so the colon
-    search runs) or from the top of the white-space loop (`nl = false`: entry with `s = *p`, and every
-    further iteration of the loop).  Each `goto next_line` and each loop iteration is a recursive call on
-    a strictly shorter rest of the string; `fuel` > the remaining length is never exhausted. -/
+/-- where one pass through the body of `hex_get_byte` ends: a `return`, or a jump (`goto next_line`
+    with `nl = true`, the next iteration of the white-space loop with `nl = false`) on the rest `s` -/
+inductive Step where
+  | ret (o : Out)
+  | jump (nl : Bool) (s : Str)
+  deriving Repr, DecidableEq
+
+/-- from the top of the white-space loop to the next jump or return -/
+def body (s : Str) : Step :=
+  match rd s 0 with
+  | .oob => .ret .oob
+  | .ok c =>
+    if isSpace c then
+      -- `while (isspace(*s)) if (*s++ == '\n') goto next_line;`
+      match adv s 1 with
+      | .oob => .ret .oob
+      | .ok s' => .jump (c = 10) s'
+    else
+      match skip0x s with
+      | .oob => .ret .oob
+      | .ok s1 =>
+        match pair s1 with
+        | .oob => .ret .oob
+        | .ok (some (v, p)) => .ret (.byte v p)
+        | .ok none =>
+          -- `s = *p = strchr(s, '\n'); if (s++) goto next_line; return -1;`
+          match strchr 10 s1 with
+          | none => .ret .done
+          | some q =>
+            match adv q 1 with
+            | .oob => .ret .oob
+            | .ok s' => .jump true s'
+
+/-- from the label `next_line` (`nl = true`: `s` is not NULL, so the colon search runs first) or from the
+    top of the white-space loop (`nl = false`: entry with `s = *p`, and every further loop iteration) -/
+def step (nl : Bool) (s0 : Str) : Step :=
+  match (if nl then skipColon s0 else .ok s0) with
+  | .oob => .ret .oob
+  | .ok s => body s
+
+/-- The goto structure of `hex_get_byte` as a recursion: every `goto next_line` and every iteration of the
+    white-space loop continues on a strictly shorter rest of the string (`C18.step_jump`), so a budget
+    larger than the remaining length is never exhausted (`C18.scan_fuel`, `C18.parser_safe`). -/
 def scan : Nat → Bool → Str → Out
   | 0, _, _ => .nofuel
-  | fuel + 1, nl, s0 =>
-    match (if nl then skipColon s0 else .ok s0) with
-    | .oob => .oob
-    | .ok s =>
-      match rd s 0 with
-      | .oob => .oob
-      | .ok c =>
-        if isSpace c then
-          -- `while (isspace(*s)) if (*s++ == '\n') goto next_line;`
-          match adv s 1 with
-          | .oob => .oob
-          | .ok s' => scan fuel (c = 10) s'
-        else
-          match skip0x s with
-          | .oob => .oob
-          | .ok s1 =>
-            match pair s1 with
-            | .oob => .oob
-            | .ok (some (v, p)) => .byte v p
-            | .ok none =>
-              -- `s = *p = strchr(s, '\n'); if (s++) goto next_line; return -1;`
-              match strchr 10 s1 with
-              | none => .done
-              | some q =>
-                match adv q 1 with
-                | .oob => .oob
-                | .ok s' => scan fuel true s'
+  | fuel + 1, nl, s =>
+    match step nl s with
+    | .ret o => o
+    | .jump nl' s' => scan fuel nl' s'
 
 /-- one call `hex_get_byte(s, &p)`: `s = some _` is a non-NULL first argument, `s = none` is NULL with
     the current `*p` given by `p` -/
